@@ -216,10 +216,42 @@ fn rd_u64(b: &[u8], o: usize) -> u64 {
     (rd_u32(b, o) as u64) | ((rd_u32(b, o + 4) as u64) << 32)
 }
 
-/// symbolic compact sketch with n strictly increasing entries below theta
-fn any_compact<const N: usize>(ordered: bool) -> CompactThetaSketch {
-    let theta: u64 = kani::any();
-    kani::assume(theta >= 1 && theta <= MAX_THETA);
+/// loop-free little-endian store
+fn put_le(b: &mut [u8], o: usize, v: u64, n: usize) {
+    b[o] = v as u8;
+    if n >= 2 {
+        b[o + 1] = (v >> 8) as u8;
+    }
+    if n >= 4 {
+        b[o + 2] = (v >> 16) as u8;
+        b[o + 3] = (v >> 24) as u8;
+    }
+    if n >= 8 {
+        b[o + 4] = (v >> 32) as u8;
+        b[o + 5] = (v >> 40) as u8;
+        b[o + 6] = (v >> 48) as u8;
+        b[o + 7] = (v >> 56) as u8;
+    }
+}
+
+macro_rules! same_words {
+    ($bytes:expr, $img:expr, $len:expr; $($i:expr),*) => { $(
+        if 8 * $i + 8 <= $len {
+            assert!(rd_u64(&$bytes, 8 * $i) == rd_u64(&$img, 8 * $i), "serialized bytes differ from the documented layout");
+        }
+    )* };
+}
+
+/// symbolic compact sketch with N entries below theta; the shape (exact / estimating, empty, ordered) is
+/// concrete, theta (when estimating) and the entries are symbolic
+fn any_compact<const N: usize>(ordered: bool, estimating: bool, empty: bool) -> CompactThetaSketch {
+    let theta: u64 = if estimating {
+        let t: u64 = kani::any();
+        kani::assume(t >= 1 && t < MAX_THETA);
+        t
+    } else {
+        MAX_THETA
+    };
     let mut v = [0u64; N];
     let mut i = 0;
     while i < N {
@@ -238,8 +270,8 @@ fn any_compact<const N: usize>(ordered: bool) -> CompactThetaSketch {
         }
         i += 1;
     }
-    let empty = N == 0 && theta == MAX_THETA && kani::any();
-    let is_single = N == 1 && theta == MAX_THETA;
+    assert!(!empty || (N == 0 && !estimating));
+    let is_single = N == 1 && !estimating;
     CompactThetaSketch {
         entries: v.to_vec(),
         theta,
@@ -262,84 +294,83 @@ fn same_compact(a: &CompactThetaSketch, b: &CompactThetaSketch) {
     }
 }
 
-fn v3_case<const N: usize>(ordered: bool) {
-    let c = any_compact::<N>(ordered);
-    let bytes = c.serialize();
-    let est_mode = c.theta < MAX_THETA;
-    // ---- spec decoder: compact theta serial version 3 (Java/C++)
-    let pre = if est_mode { 3 } else if c.empty || N == 1 { 1 } else { 2 };
-    assert!(bytes[0] == pre, "preamble longs");
-    assert!(bytes[1] == 3 && bytes[2] == 3, "serial version 3 / family 3");
-    assert!(bytes[3] == 0 && bytes[4] == 0, "lg_nom / lg_arr unused in compact form");
-    let flags = bytes[5];
-    assert!(flags & 2 != 0 && flags & 8 != 0, "read-only and compact flags");
-    assert!((flags & 4 != 0) == c.empty, "empty flag");
-    assert!((flags & 16 != 0) == c.ordered, "ordered flag");
-    assert!(rd_u16(&bytes, 6) == 0x93CC, "seed hash");
+/// Round trip against a SPEC ENCODER (compact theta, serial version 3, Java/C++ layout) in an exact-size
+/// array with literal structure; the real serialize() must equal it byte for byte; the decoder runs on it.
+fn v3_case<const N: usize, const LEN: usize>(ordered: bool, estimating: bool, empty: bool) {
+    let c = any_compact::<N>(ordered, estimating, empty);
+    let pre: u8 = if estimating { 3 } else if empty || N == 1 { 1 } else { 2 };
+    let mut img = [0u8; LEN];
+    img[0] = pre; // preamble longs
+    img[1] = 3; // serial version
+    img[2] = 3; // family
+    // lg_nom / lg_arr (bytes 3, 4) unused in compact form
+    img[5] = 2 | 8 | (if empty { 4 } else { 0 }) | (if c.ordered { 16 } else { 0 }); // read-only, compact, empty, ordered
+    put_le(&mut img, 6, 0x93CC, 2); // seed hash
     let mut off = 8;
     if pre > 1 {
-        assert!(rd_u32(&bytes, 8) as usize == N, "retained count");
+        put_le(&mut img, 8, N as u64, 4); // retained count (+ 4 bytes p / unused)
         off = 16;
     }
-    if est_mode {
-        assert!(rd_u64(&bytes, 16) == c.theta, "theta long");
+    if estimating {
+        put_le(&mut img, 16, c.theta, 8);
         off = 24;
     }
-    assert!(bytes.len() == off + 8 * N, "image length");
+    assert!(LEN == off + 8 * N);
     let mut i = 0;
     while i < N {
-        assert!(rd_u64(&bytes, off + 8 * i) == c.entries[i], "hash value");
+        put_le(&mut img, off + 8 * i, c.entries[i], 8);
         i += 1;
     }
+    let bytes = c.serialize();
+    assert!(bytes.len() == LEN, "image length is not 8 * (preLongs + entries)");
+    same_words!(bytes, img, LEN; 0, 1, 2, 3, 4, 5, 6, 7);
     // ---- round trip
-    let r = CompactThetaSketch::deserialize(&bytes);
+    let r = CompactThetaSketch::deserialize(&img);
     let g = crate::verif_kani_common::expect_ok(r, "own v3 image rejected");
     same_compact(&c, &g);
+    kani::cover!(true);
     core::mem::forget((c, g, bytes));
 }
 
-//@ props: C11 C12
-//@ tier: quick
+macro_rules! theta_v3_roundtrip {
+    ($name:ident, $n:expr, $len:expr, $ordered:expr, $est:expr, $empty:expr) => {
+        #[kani::proof]
+        #[kani::unwind(6)]
+        #[kani::stub(alloc::fmt::format, stub_format)]
+        fn $name() {
+            v3_case::<$n, $len>($ordered, $est, $empty);
+        }
+    };
+}
+
+//@ family: theta_v3_roundtrip
+//@ props: C11 C12 C18
+//@ tier: thorough
 //@ timeout: 1800
 //@ functions: theta::CompactThetaSketch::serialize
 //@ functions: theta::CompactThetaSketch::deserialize
 //@ functions: theta::CompactThetaSketch::deserialize_v3
 //@ functions: theta::CompactThetaSketch::read_entries
 //@ functions: theta::CompactThetaSketch::preamble_longs
-//@ bounds: compact sketches with 0, 1, 2, 3 entries (ordered and unordered), every theta (exact and estimating), empty and non-empty zero-entry sketches
-//@ desc: the uncompressed image follows the compact-theta v3 layout (preLongs 1/2/3, serVer 3, family 3, flags read-only|compact|empty|ordered, seed hash, count, theta, hashes) as read by an independent decoder, and deserializes to the identical sketch
-#[kani::proof]
-#[kani::unwind(40)]
-#[kani::stub(alloc::fmt::format, stub_format)]
-fn c11_theta_v3_roundtrip_layout() {
-    v3_case::<0>(true);
-    v3_case::<1>(true);
-    v3_case::<2>(true);
-    v3_case::<2>(false);
-    v3_case::<3>(false);
-    kani::cover!(true);
-}
+//@ unwind: 6
+//@ stubs: alloc::fmt::format -> empty string
+//@ bounds: compact sketches of the instance's shape: 0..=3 entries, ordered / unordered, exact (theta = MAX) or estimating (theta symbolic), the empty sketch and non-empty zero-entry sketches; entries symbolic
+//@ desc: serialize() equals, byte for byte, the image a spec encoder written from the compact-theta v3 documentation produces (preLongs 1 for empty and exact single-item sketches, 2 for exact, 3 whenever theta < 1; serVer 3, family 3, flags read-only|compact|empty|ordered, seed hash, count, theta, hashes; length 8 * (preLongs + entries)), and that image deserializes to the identical sketch
+theta_v3_roundtrip!(c11_theta_v3_roundtrip_empty, 0, 8, true, false, true); //@ tier: quick
+theta_v3_roundtrip!(c11_theta_v3_roundtrip_exact_zero_entries, 0, 16, true, false, false);
+theta_v3_roundtrip!(c11_theta_v3_roundtrip_estimating_zero_entries, 0, 24, true, true, false); //@ tier: quick
+theta_v3_roundtrip!(c11_theta_v3_roundtrip_single_item, 1, 16, true, false, false); //@ tier: quick
+theta_v3_roundtrip!(c11_theta_v3_roundtrip_estimating_one_entry, 1, 32, true, true, false); //@ tier: quick
+theta_v3_roundtrip!(c11_theta_v3_roundtrip_exact_two_ordered, 2, 32, true, false, false); //@ tier: quick
+theta_v3_roundtrip!(c11_theta_v3_roundtrip_estimating_two_unordered, 2, 40, false, true, false);
+theta_v3_roundtrip!(c11_theta_v3_roundtrip_estimating_three_ordered, 3, 48, true, true, false);
+//@ endfamily: x
 
-//@ props: C14
-//@ tier: quick
-//@ timeout: 1800
-//@ functions: theta::CompactThetaSketch::deserialize
-//@ functions: theta::CompactThetaSketch::deserialize_v1
-//@ functions: theta::CompactThetaSketch::deserialize_v2
-//@ functions: theta::CompactThetaSketch::deserialize_v3
-//@ functions: theta::CompactThetaSketch::read_entries
-//@ bounds: every byte string of length 0..=48 with serial version 1, 2 or 3 (v4: c14_theta_v4_any_bytes)
-//@ desc: deserialize returns Ok or Err without panic for every v1/v2/v3 byte string; an Ok value can be queried and re-serialized (both forms) without panicking
-#[kani::proof]
-#[kani::unwind(10)]
-#[kani::stub(alloc::fmt::format, stub_format)]
-#[kani::stub(crate::common::binomial_bounds::compute_approx_binomial_lower_bound, stub_approx_lb)]
-#[kani::stub(crate::common::binomial_bounds::compute_approx_binomial_upper_bound, stub_approx_ub)]
-fn c14_theta_v123_any_bytes() {
+fn theta_any_bytes_case(version: u8, reserialize: bool) {
     let img: [u8; 48] = kani::any();
     let len: usize = kani::any();
     kani::assume(len <= 48);
-    kani::assume(img[1] >= 1 && img[1] <= 3);
+    kani::assume(img[1] == version);
     let r = CompactThetaSketch::deserialize(&img[..len]);
     kani::cover!(r.is_ok());
     kani::cover!(r.is_err());
@@ -348,12 +379,69 @@ fn c14_theta_v123_any_bytes() {
         let _ = g.estimate();
         let _ = g.upper_bound(NumStdDev::Two);
         let _ = g.lower_bound(NumStdDev::Two);
-        let out = g.serialize();
-        core::mem::forget(out);
+        if reserialize {
+            let out = g.serialize();
+            core::mem::forget(out);
+        }
         core::mem::forget(g);
     } else {
         core::mem::forget(r);
     }
+}
+
+macro_rules! theta_any_bytes {
+    ($name:ident, $v:expr, $re:expr) => {
+        #[kani::proof]
+        #[kani::unwind(10)]
+        #[kani::stub(alloc::fmt::format, stub_format)]
+        #[kani::stub(crate::common::binomial_bounds::compute_approx_binomial_lower_bound, stub_approx_lb)]
+        #[kani::stub(crate::common::binomial_bounds::compute_approx_binomial_upper_bound, stub_approx_ub)]
+        fn $name() {
+            theta_any_bytes_case($v, $re);
+        }
+    };
+}
+
+//@ family: theta_any_bytes
+//@ props: C14
+//@ tier: thorough
+//@ timeout: 2400
+//@ functions: theta::CompactThetaSketch::deserialize
+//@ functions: theta::CompactThetaSketch::deserialize_v1
+//@ functions: theta::CompactThetaSketch::deserialize_v2
+//@ functions: theta::CompactThetaSketch::deserialize_v3
+//@ functions: theta::CompactThetaSketch::read_entries
+//@ unwind: 10
+//@ stubs: alloc::fmt::format -> empty string; binomial approximations -> arbitrary values
+//@ bounds: every byte string of length 0..=48 with the serial version of the instance (1, 2, 3; v4: c14_theta_v4_any_bytes; other versions are rejected in the header - covered by each instance's Err paths and c14_theta_unknown_version)
+//@ desc: deserialize returns Ok or Err without panic for every v1/v2/v3 byte string; an Ok value can be queried (estimate, bounds) and - in the *_reserialize instances - re-serialized without panicking
+theta_any_bytes!(c14_theta_v1_any_bytes, 1, false); //@ tier: quick
+theta_any_bytes!(c14_theta_v2_any_bytes, 2, false); //@ tier: quick
+theta_any_bytes!(c14_theta_v3_any_bytes, 3, false); //@ tier: quick
+theta_any_bytes!(c14_theta_v3_any_bytes_reserialize, 3, true);
+theta_any_bytes!(c14_theta_v2_any_bytes_reserialize, 2, true);
+//@ endfamily: x
+
+//@ props: C14
+//@ tier: quick
+//@ timeout: 900
+//@ functions: theta::CompactThetaSketch::deserialize
+//@ bounds: every byte string of length 0..=24 whose serial version byte is not 1..=4
+//@ desc: images of an unknown serial version are rejected (Err), never a panic
+#[kani::proof]
+#[kani::unwind(10)]
+#[kani::stub(alloc::fmt::format, stub_format)]
+fn c14_theta_unknown_version() {
+    let img: [u8; 24] = kani::any();
+    let len: usize = kani::any();
+    kani::assume(len <= 24);
+    kani::assume(img[1] == 0 || img[1] > 4);
+    let r = CompactThetaSketch::deserialize(&img[..len]);
+    kani::cover!(len >= 8);
+    if len >= 2 {
+        assert!(r.is_err(), "an image with an unknown serial version was accepted");
+    }
+    core::mem::forget(r);
 }
 
 //@ props: C14
@@ -388,22 +476,17 @@ fn c14_theta_v4_any_bytes() {
 
 /// spec encoder for the legacy versions: v1 (3 preLongs always), v2 (1/2/3 preLongs)
 fn put_u64(b: &mut [u8], o: usize, v: u64) {
-    let mut i = 0;
-    while i < 8 {
-        b[o + i] = (v >> (8 * i)) as u8;
-        i += 1;
-    }
+    put_le(b, o, v, 8);
 }
 
 /// One foreign image variant per case (CASE), built by the harness's spec encoder from a symbolic state.
-fn foreign_case<const CASE: u8>() {
+fn foreign_case<const CASE: u8, const NENT: usize>() {
     let theta: u64 = kani::any();
     kani::assume(theta >= 3 && theta <= MAX_THETA);
     let e0: u64 = kani::any();
     let e1: u64 = kani::any();
     kani::assume(e0 >= 1 && e0 < e1 && e1 < theta);
-    let n: usize = kani::any();
-    kani::assume(n >= 1 && n <= 2);
+    let n: usize = NENT; // (concrete per instance: the image length and the count field are structure)
     let th: u64 = kani::any(); // theta of the zero-entry estimating images
     kani::assume(th >= 1 && th < MAX_THETA);
     let mut img = [0u8; 48];
@@ -502,12 +585,12 @@ fn foreign_case<const CASE: u8>() {
 }
 
 macro_rules! theta_foreign {
-    ($name:ident, $case:expr) => {
+    ($name:ident, $case:expr, $n:expr) => {
         #[kani::proof]
-        #[kani::unwind(12)]
+        #[kani::unwind(6)]
         #[kani::stub(alloc::fmt::format, stub_format)]
         fn $name() {
-            foreign_case::<$case>();
+            foreign_case::<$case, $n>();
             kani::cover!(true);
         }
     };
@@ -521,17 +604,20 @@ macro_rules! theta_foreign {
 //@ functions: theta::CompactThetaSketch::deserialize_v1
 //@ functions: theta::CompactThetaSketch::deserialize_v2
 //@ functions: theta::CompactThetaSketch::deserialize_v3
-//@ unwind: 12
-//@ bounds: one image variant per instance, built by the harness's spec encoder from a symbolic abstract state with 0..=2 entries and symbolic theta: serial version 1 (always 3 preLongs); serial version 2 with preLongs 1 (empty), 2 (exact), 3 (estimating); serial version 3 single-item form; estimating images without entries (count 0, theta < 1.0) in versions 1, 2, 3
+//@ unwind: 6
+//@ bounds: one image variant and entry count per instance, built by the harness's spec encoder (48-byte array, structural fields literal) from a symbolic abstract state with 0..=2 entries and symbolic theta: serial version 1 (always 3 preLongs); serial version 2 with preLongs 1 (empty), 2 (exact), 3 (estimating); serial version 3 single-item form; estimating images without entries (count 0, theta < 1.0) in versions 1, 2, 3
 //@ desc: the legacy / foreign compact-theta image variant is read back to the state it encodes: entries, theta, emptiness (non-empty unless it encodes an empty sketch), ordered
-theta_foreign!(c13_theta_v1, 1);
-theta_foreign!(c13_theta_v2_exact, 2);
-theta_foreign!(c13_theta_v2_estimating, 3);
-theta_foreign!(c13_theta_v2_empty, 4);
-theta_foreign!(c13_theta_v3_single_item, 5);
-theta_foreign!(c13_theta_v1_zero_entries, 6);
-theta_foreign!(c13_theta_v2_zero_entries, 7);
-theta_foreign!(c13_theta_v3_zero_entries, 8);
+theta_foreign!(c13_theta_v1, 1, 2);
+theta_foreign!(c13_theta_v1_one_entry, 1, 1);
+theta_foreign!(c13_theta_v2_exact, 2, 2);
+theta_foreign!(c13_theta_v2_exact_one_entry, 2, 1);
+theta_foreign!(c13_theta_v2_estimating, 3, 2);
+theta_foreign!(c13_theta_v2_estimating_one_entry, 3, 1);
+theta_foreign!(c13_theta_v2_empty, 4, 1);
+theta_foreign!(c13_theta_v3_single_item, 5, 1);
+theta_foreign!(c13_theta_v1_zero_entries, 6, 1);
+theta_foreign!(c13_theta_v2_zero_entries, 7, 1);
+theta_foreign!(c13_theta_v3_zero_entries, 8, 1);
 //@ endfamily: x
 
 fn v4_case<const N: usize>() {
@@ -593,9 +679,21 @@ fn v4_case<const N: usize>() {
     core::mem::forget((c, g, bytes));
 }
 
+macro_rules! theta_v4_roundtrip {
+    ($name:ident, $n:expr, $unwind:expr) => {
+        #[kani::proof]
+        #[kani::unwind($unwind)]
+        #[kani::stub(alloc::fmt::format, stub_format)]
+        fn $name() {
+            v4_case::<$n>();
+        }
+    };
+}
+
+//@ family: theta_v4_roundtrip
 //@ props: C11 C12
-//@ tier: quick
-//@ timeout: 2400
+//@ tier: thorough
+//@ timeout: 3600
 //@ functions: theta::CompactThetaSketch::serialize_compressed
 //@ functions: theta::CompactThetaSketch::serialize_v4
 //@ functions: theta::CompactThetaSketch::deserialize_v4
@@ -603,12 +701,11 @@ fn v4_case<const N: usize>() {
 //@ functions: theta::CompactThetaSketch::num_entries_bytes
 //@ functions: theta::bit_pack::BitPacker::pack_value
 //@ functions: theta::bit_pack::BitUnpacker::unpack_value
-//@ bounds: ordered compact sketches with 2 and 3 entries (tail path; the 8-entry block path is covered per width by c11_pack_bits_NN), every theta, every delta - so every bit width 1..=63 arises symbolically
+//@ unwind: 12
+//@ stubs: alloc::fmt::format -> empty string
+//@ bounds: ordered compact sketches with the instance's number of entries (1, 2, 3: tail path; the 8-entry block path is covered per width by c11_pack_bits_NN), every theta, every delta - so every bit width 1..=63 arises symbolically
 //@ desc: the compressed image has the v4 header (preLongs 1/2, serVer 4, family 3, entry_bits @3, count-byte count @4, flags, seed hash, theta, little-endian count), the declared width is that of the widest delta, the length is header + ceil(n*bits/8), and it deserializes to the identical sketch
-#[kani::proof]
-#[kani::unwind(70)]
-#[kani::stub(alloc::fmt::format, stub_format)]
-fn c11_theta_v4_roundtrip_tail() {
-    v4_case::<2>();
-    v4_case::<3>();
-}
+theta_v4_roundtrip!(c11_theta_v4_roundtrip_1, 1, 12); //@ tier: quick
+theta_v4_roundtrip!(c11_theta_v4_roundtrip_2, 2, 12);
+theta_v4_roundtrip!(c11_theta_v4_roundtrip_3, 3, 12);
+//@ endfamily: x
